@@ -1,15 +1,19 @@
 (* C11 -- navigation and iterators agree with the tree: on every arena that is the pre-order
-   encoding of a tree (Arena d t), each link accessor, axis and iterator of the model's API is the
-   corresponding function of t, and the double-ended iterators implement the deque specification
-   for every sequence of operations.  Statements pinned here; proofs in Proofs/Nav*.v. *)
-From Coq Require Import List NArith Bool.
+   encoding of a tree (Arena d t), each link accessor, axis, element variant, text/tail, root_element
+   and iterator of the model's API is the corresponding function of t, and the double-ended iterators
+   implement the deque specification for every sequence of operations.
+   Statements are pinned here (copied verbatim from the proof files by tools/pin_props.py);
+   each is re-proved by `exact` and followed by Print Assumptions. *)
+From Coq Require Import Ascii String.
+From Coq Require Import List NArith Bool PeanoNat Sorted.
 Import ListNotations.
-From RX.Model Require Import Base Stream Tokenizer Doc Builder Api.
+From RX Require Import Generated.
+From RX.Model Require Import Base CharClass Stream Tokenizer Doc Builder Parse Api.
 From RX.Spec Require Import Tree Deque.
-From Coq Require Import PeanoNat.
 From RX.Proofs Require Import NavEnc NavLinks NavIter NavAxes NavElem.
 Open Scope N_scope.
 
+(* ---- Proofs/NavLinks.v ---- *)
 Theorem C11_table_ids :
   forall t,
   map (fun e => fst (fst e)) (table t) = N_range 0 (N.to_nat (size t)).
@@ -64,6 +68,7 @@ Theorem C11_nav_descendants :
 Proof. exact nav_descendants. Qed.
 Print Assumptions C11_nav_descendants.
 
+(* ---- Proofs/NavIter.v ---- *)
 Theorem C11_nav_children :
   forall d t id par s,
   Arena d t -> In (id, par, s) (table t) ->
@@ -86,6 +91,7 @@ Theorem C11_slice_deque :
 Proof. exact slice_deque. Qed.
 Print Assumptions C11_slice_deque.
 
+(* ---- Proofs/NavAxes.v ---- *)
 Theorem C11_nav_ancestors :
   forall d t id par s,
   Arena d t -> In (id, par, s) (table t) ->
@@ -121,6 +127,7 @@ Theorem C11_nav_last_children :
 Proof. exact nav_last_children. Qed.
 Print Assumptions C11_nav_last_children.
 
+(* ---- Proofs/NavElem.v ---- *)
 Theorem C11_nav_has_siblings :
   forall d t id par s,
   Arena d t -> In (id, par, s) (table t) ->
